@@ -619,6 +619,46 @@ def c15(tier):
     ck.assumptions += ['held on the schedules the OS produced; all interleavings are out of reach for this technique', 'user functors, contexts and streams are per call; only library state is shared']
     return ck.finish(floor_events=1000)
 
+from . import capacity_check as capc
+
+@register('C12')
+def c12(tier):
+    ck = Check('C12', tier)
+    q = tier == 'quick'
+    rnd = random.Random(common.seed() * 12007 + 12)
+    # (1) pattern automaton size: analyzer prediction >= states built; exact-size compile-time instantiation
+    pats = rxc.gen_patterns(rnd, 20000 if q else 600000, max_positions=120)
+    reps = []
+    for _ in range(400 if q else 6000):      # nested and large repetition counts
+        ast = rxc.rr.gen_ast(rnd, rnd.choice([1, 2, 3]), rxc.rr.ALPHA_MED)
+        ast = ('rep', ast, rnd.choice([5, 7, 12, 20, 33]))
+        if rnd.random() < 0.4: ast = ('rep', ('grp', ast), rnd.choice([2, 3, 4]))
+        if rnd.random() < 0.3: ast = ('cat', ast, ('star', rxc.rr.gen_ast(rnd, 1, rxc.rr.ALPHA_SMALL)))
+        t = rxc.rr.finish_text(rxc.rr.render(ast))
+        if t is not None and rxc.rr.positions_count(ast) <= 900: reps.append((ast, t))
+    merge(ck, common.pmap(rxc.judge_batch, [('C12', c, False, 'clang1') for c in chunks(pats + reps, 3000)]))
+    ct = rxc.gen_patterns(rnd, 32 if q else 600, max_positions=30) + [x for x in reps if rxc.rr.positions_count(x[0]) <= 60][: (8 if q else 100)]
+    merge(ck, common.pmap(rxc.judge_ct, [('C12', c, 'clang', common.seed() + i) for i, c in enumerate(chunks(ct, 8))]))
+    # (2) default capacities of parse table and lexer automaton, both construction modes
+    gs = gen_grammars('C12', tier, 120 if q else 2500, 'allclasses')
+    gs = [g for g in gs if gg.classify(ref_lr1.build(g)) != 'acc'] + [lxc.token_grammar(ts, 'tokens') for ts in lxc.fixed_termsets()] + [lxc.token_grammar(lxc.gen_termset(rnd), 'tokens') for _ in range(16 if q else 300)]
+    merge(ck, common.pmap(capc.default_caps_worker, [{'grammars': [g.to_json() for g in c]} for c in chunks(gs, 8)]))
+    # (3) user limits at need-1 / need / need+1
+    lg = [g for g in gen_grammars('C12b', tier, 60 if q else 600, 'plain') if ref_lr1.build(g).lr1 and 4 <= len(ref_lr1.build(g).states) <= 40]
+    rnd.shuffle(lg)
+    merge(ck, common.pmap(capc.limits_worker, [{'grammar': g.to_json(), 'seed': common.seed() + i} for i, g in enumerate(lg[: (10 if q else 120)])]))
+    # (4) fixed stacks used with cstring_buffer
+    ng = capc.nullable_rich(rnd, 14 if q else 160)
+    extra = [(b'(' * k + b')' * k).hex() for k in (1, 2, 3, 5, 8, 12, 20)]
+    merge(ck, common.pmap(capc.stack_worker, [{'grammar': g.to_json(), 'seed': common.seed() + i, 'n_inputs': 14 if q else 40, 'extra_inputs': extra if i == 0 else []} for i, g in enumerate(ng)]))
+    ck.cov['rule'] = ('(1) for generated patterns incl. nested and large {n}: dfa_size_analyzer prediction vs states created by the real builder, and exact-size regex::expr instantiations built by the constant '
+                      'evaluator; (2) for generated parsers of all grammar classes and lexer term sets, constructed at compile time and at run time with default limits: states/items vs caps from the '
+                      'diagnostics, lexer automaton size vs capacity, cvector hook; (3) two-stage: read the real state/item counts, then instantiate the same grammar with user limits need-1/need/need+1/large: '
+                      'sufficient limits must give the same diagnostics and parse results, insufficient ones must be rejected (exception at run time, non-constant expression for g++ and clang++); '
+                      '(4) grammars with runs of nullable symbols parsed from cstring_buffer literals (fixed stacks) vs string_buffer; distinct_nontrivial = distinct patterns/grammars/inputs over the four parts')
+    ck.assumptions += ['the stack-capacity defect D6 is a recorded finding keyed by site', 'patterns needing more than 2048 automaton states are skipped by the run-time harness']
+    return ck.finish(floor_events=1000)
+
 def replay(prop, path):
     rep = json.load(open(path))
     print('replay of', path, '- re-running the full check for', prop, 'with seed', rep.get('seed'))
